@@ -20,6 +20,8 @@ package rules
 //	R-C16-5  (c16_status.go) a registered connection does not look disconnected: soundness side
 //	         condition of the `registered.disconnected()` guard that R-C16-3 accepts in removeClient.
 //	R-C16-6  (c16_persist.go) persistence chain: topic change -> store() -> store channel -> put.
+//	R-C16-7  (c16_cache.go) the session cache holds only sessions of live connections.
+//	R-C16-8  (c16_keys.go) key-domain agreement (client id vs storage key).
 //	R-C16-4  admin delete disconnects (E1): the HTTP handler deletes the stored session of each
 //	         listed id; watchDelete hands every deleted key (value nil) — and only those — to
 //	         deleteSession and keeps watching; deleteSession closes the registered client.
@@ -74,6 +76,7 @@ package rules
 
 import (
 	"go/ast"
+	"go/constant"
 	"go/types"
 
 	"golang.org/x/tools/go/cfg"
@@ -108,6 +111,10 @@ type c16Env struct {
 	// discRelied: R-C16-3 accepted `<registered>.disconnected()` as the guard of an un-registration
 	// (then R-C16-5 must hold for that acceptance to be sound)
 	discRelied bool
+
+	// supersession marks (c16_supersede.go)
+	markVals   map[*types.Var]constant.Value
+	markRelied map[*types.Var]bool
 }
 
 func c16NewEnv(c *core.Ctx) *c16Env {
@@ -313,6 +320,8 @@ func c16(c *core.Ctx) string {
 	c.Rule("R-C16-4", "admin delete disconnects: httpDeleteSessionHandler deletes sessionStoreKey(SessionID) from the store for each listed session; newBroker and reconnectWatcher start watchDelete; watchDelete calls deleteSession for exactly the entries with nil value, with an id derived from the key, never leaves the batch loop early and only stops watching on broker shutdown or after starting reconnectWatcher; deleteSession closes the client registered under the id unless none is registered or it is already disconnected")
 	c.Rule("R-C16-5", "a registered connection does not look disconnected: when R-C16-3 accepts `registered.disconnected()` as the guard of an un-registration, the status of a connection (constant propagation over the Client literal, atomic Store/Swap/CompareAndSwap of statusFlag and Client methods, through the constructor chain into handleConn) must make disconnected() false at the store into Broker.clients, and between that store and the read loop only a closing method may make it true")
 	c.Rule("R-C16-6", "persistence chain of a session: Session.subscribe/unsubscribe hand every change of info.Topics to store(); Session.store sends every successfully encoded snapshot on the store channel (directly or in a spawned function all of whose paths end in the send) and the send can only be abandoned for SessionManager.done - not by a default clause, a timeout or the session's own done channel, which is closed at every connection teardown; SessionManager.doStore puts every received snapshot under sessionStoreKey(key) and only ends on SessionManager.done")
+	c.Rule("R-C16-7", "the session cache holds only sessions of live connections: along the call chain from the read loop's deferred teardown to the removal of the sessionMap entry every function executes the next link on every exit, except exits on which it established that the connection no longer owns its client id (another connection registered / supersession mark set) or that nothing is cached; no condition on the session's content may skip the removal (SessionManager.get reads the cache before the storage)")
+	c.Rule("R-C16-8", "key-domain agreement: a key whose domain is evident from the code (client id: Client.info.cid, connect.ClientIdentifier, keys of Broker.clients, a storage key with the prefix stripped; storage key: sessionStoreKey(..), keys of a storage.getPrefix listing or of a watch event) is used only where that domain is demanded (Broker.clients, session cache, topic manager, sessionStoreKey argument: client id; storage get/put/delete, stored-session listings: storage key), also across calls of in-package functions")
 	c.NotDecided = []string{
 		"the interleavings themselves (the rules check lock/identity discipline, not schedules)",
 		"that Client.close eventually ends the TCP connection (the read loop notices only at its next packet or keep-alive deadline)",
@@ -331,8 +340,19 @@ func c16(c *core.Ctx) string {
 	c16Resubscribe(env)
 	c16Teardown(env)
 	c16AdminDelete(env)
+	c16MarkWritten(env)
 	c16Status(env)
 	c16PersistRule(env)
+	c16Cache(env)
+	c16KeyDomains(env)
+	// shared with C14: a reconnect restores exactly what the session recorded, so the session may record only batches the
+	// trie accepted, and the trie must accept or refuse a batch as a whole (R-C14-6)
+	if e14 := c14newEnv(c); e14 != nil {
+		c.Alias("R-C14-6", "R-C16-9")
+		c.Rule("R-C14-6", "what a reconnect restores is what the broker routes: the SUBSCRIBE handler records / acknowledges a batch only if TopicManager.subscribe accepted it, subscribe reports a malformed filter and is all-or-nothing, unsubscribe processes every filter of the batch (shared with R-C14-6)")
+		c14Batch(e14)
+		c.Alias("R-C14-6", "")
+	}
 	return "Static shape rules on the MQTT session life cycle: the complete decision table of setSession over (connect.CleanSession, prev==nil, prev.cleanSession()) is extracted path-sensitively and compared with the table the property states; handleConn enters the read loop only with the session set and its topics resubscribed under the connection's id; every client-id-keyed operation statically reachable from a connection's teardown is required to be guarded, under the broker lock, by a test that the connection registered under the id is still this one (otherwise a superseded connection's teardown destroys the new connection's session, stored copy, subscriptions or registration); the admin path store.delete → watchDelete → deleteSession → Client.close is connected for deleted keys only. Not decided: interleavings, timing of the actual socket close, asynchronous store ordering."
 }
 
@@ -737,6 +757,20 @@ func c16Resubscribe(e *c16Env) {
 					c.Check(bad == nil && n > 0, "R-C16-2", cons+"|accepted subscription recorded in session", pos(c, sub),
 						sprintf("%d exits: every one on which topicMgr.subscribe did not fail passed client.session.subscribe(same topics, same qoss)", n),
 						"a subscription accepted by the topic manager is not recorded (with the same topics and QoS) in the client's session: it is lost on reconnect with cleanSession=false", witness(bad)...)
+					// converse: nothing the topic manager refused is recorded
+					var early *flow.State
+					m := 0
+					for _, call := range callsTo(f, f.Body, false, "(*"+mq+".Session).subscribe") {
+						for _, st := range res.At[call] {
+							m++
+							if (errKey == "" || !st.Is(errKey, flow.True)) && early == nil {
+								early = st
+							}
+						}
+					}
+					c.Check(early == nil, "R-C16-2", cons+"|only accepted subscriptions recorded in session", pos(c, sub),
+						sprintf("%d states reach client.session.subscribe, all after topicMgr.subscribe returned nil", m),
+						"the session records (and persists) the SUBSCRIBE batch on a path on which the topic manager has not accepted it: a refused batch (malformed filter) stays in the stored session, and every later cleanSession=false reconnect, which re-subscribes the stored batch as a whole in handleConn, restores nothing", witness(early)...)
 				}
 			}
 		}
@@ -835,6 +869,8 @@ type c16Guards struct {
 	discKeys   []string // <reg>.disconnected() call facts
 	unresolved bool     // comparisons on the registry the analysis does not classify
 	discRelied bool     // some state was accepted only because <reg>.disconnected() is true
+	sup        []c16SupFact
+	env        *c16Env
 }
 
 const c16Locked, c16Fresh = "ev:c16brokerLocked", "ev:c16lookupFresh"
@@ -884,7 +920,7 @@ func (e *c16Env) brokerLockCall(f *flow.Func, call *ast.CallExpr, callee types.O
 
 func (w *c16Walker) guards(f *flow.Func) *c16Guards {
 	e := w.e
-	g := &c16Guards{f: f}
+	g := &c16Guards{f: f, env: e}
 	regVars := map[types.Object]*ast.Ident{}
 	ast.Inspect(f.Body, func(n ast.Node) bool {
 		as, ok := n.(*ast.AssignStmt)
@@ -928,6 +964,7 @@ func (w *c16Walker) guards(f *flow.Func) *c16Guards {
 		}
 		return true
 	})
+	g.sup = e.supFacts(f, isReg)
 	g.res = analyze(e.c, f, flow.Config{
 		NoHavoc: true,
 		OnNode: func(st *flow.State, n ast.Node) {
@@ -963,15 +1000,34 @@ func (g *c16Guards) at(call *ast.CallExpr, kind string) (how string, bad *flow.S
 		return "unreachable", nil, ""
 	}
 	for _, st := range states {
-		fact := false
+		fact, absent := false, false
 		for _, k := range g.idKeys {
 			fact = fact || st.Is(k, flow.True)
 		}
 		for _, k := range g.absentT {
-			fact = fact || st.Is(k, flow.True)
+			absent = absent || st.Is(k, flow.True)
 		}
 		for _, k := range g.absentF {
-			fact = fact || st.Is(k, flow.False)
+			absent = absent || st.Is(k, flow.False)
+		}
+		if absent && !fact {
+			// nothing registered: harmless for the un-registration itself; for everything else
+			// it proves ownership only for a connection that was never superseded
+			if kind == c16OpUnreg {
+				fact = true
+			}
+			for _, sf := range g.sup {
+				if sf.notSupWhen != flow.Unknown && st.Get(sf.key) == sf.notSupWhen {
+					fact = true
+					if g.env.markRelied == nil {
+						g.env.markRelied = map[*types.Var]bool{}
+					}
+					g.env.markRelied[sf.fld] = true
+				}
+			}
+			if !fact {
+				return "", st, "the operation runs when nothing is registered under the id any more, without having established that this connection was never superseded: a superseded connection whose successor has connected, disconnected and been unregistered in the meantime (its cleanSession=false session stored for the next reconnect) passes this test, and its late teardown removes what the successor left behind under the id"
+			}
 		}
 		if kind == c16OpUnreg && !fact {
 			for _, k := range g.discKeys {
